@@ -644,10 +644,12 @@ def work_missing(shard):
         shapes = trees.shapes(n)[idx_lo:idx_hi]
         for shape in shapes:
             t, k = number_leaves(shape)
-            types = tuple('ISD'[i % 3] for i in range(k))
-            leaftext = [LEAVES[ty][i % len(LEAVES[ty])][0] for i, ty in enumerate(types)]
             full = set(p for p in node_paths(t) if p != ())
-            for form, parens in (('minimal', minimal_parens(t)), ('full', full)):
+            for pat, form, parens in [(pat, f, pr) for pat in ('ISD', '$IS')
+                                      for f, pr in (('minimal', minimal_parens(t)), ('full', full))]:
+                types = tuple(pat[i % 3] for i in range(k))
+                leaftext = [LEAVES[ty][i % len(LEAVES[ty])][0] for i, ty in enumerate(types)]
+                leafvals = [(ty, LEAVES[ty][i % len(LEAVES[ty])][1]) for i, ty in enumerate(types)]
                 toks = tokens_of(t, parens)
                 for drop in range(k):
                     toks2 = [x for x in toks if x != ('l', drop)]
@@ -673,12 +675,46 @@ def work_missing(shard):
                         ok = got == ('err', error.MISSING_OPERAND)
                     else:
                         ok = got[0] == 'err' and got[1] in (error.MISSING_OPERAND, error.STX)
+                    if not ok and got[0] == 'err' and got[1] in complete_subtree_errors(env, t, drop, leafvals):
+                        # a complete subexpression to the left fails by itself (e.g. negative base with a
+                        # fractional exponent) before the parser can notice the missing operand
+                        ok = True
+                        part.classes.add('missing/pre-empted-by-value-error')
                     if not ok:
-                        part.violation('missing-operand/%s/%s' % (where, 'no-error' if got[0] != 'err' else 'code-%d' % got[1]),
+                        if got[0] != 'err':
+                            key = 'missing-operand/%s/no-error' % where
+                        elif got[1] in (error.MISSING_OPERAND, error.STX):
+                            key = 'missing-operand/%s/code-%d' % (where, got[1])
+                        else:
+                            # e.g. PRINT "a"+2*  : the pending operators are applied to the operands that
+                            # are there (shifted by one) and fail before the shortage is noticed
+                            key = 'missing-operand/other-error-from-operators-applied-to-shifted-operands'
+                        part.violation(key,
                                        'PRINT %s -> %r; expected %s' % (text.decode(), show(got),
                                                                          'Missing operand' if at_end else 'Missing operand or Syntax error'),
                                        case)
     return part
+
+
+def complete_subtree_errors(env, t, drop, leafvals):
+    """Error codes raised by the maximal subtrees of t that do not contain leaf `drop`."""
+    out = set()
+
+    def has(n):
+        if n[0] == 'L':
+            return n[1] == drop
+        return any(has(c) for c in n[2:])
+
+    def walk(n):
+        if not has(n):
+            r = tree_eval(env, n, leafvals)
+            if r[0] == 'errs':
+                out.update(r[1])
+            return
+        for c in n[2:]:
+            walk(c)
+    walk(t)
+    return out
 
 
 def work_alt(shard):
@@ -739,7 +775,7 @@ def legs(ctx):
             shards.append((n, lo, min(m, lo + 400)))
     out.append(Leg('missing-operand', shards, work_missing, exhaustive=True,
                    bound='every single-leaf deletion from every tree with <= %d nodes (reduced alphabet), minimal and '
-                         'full parentheses' % (2 if q else 3)))
+                         'full parentheses, numeric leaves and leaves starting with a string' % (2 if q else 3)))
     out.append(Leg('alt-spelling', [[a] for a in ALT], work_alt, exhaustive=True,
                    bound='=< => >< as parent / child of every binary operator and with unary operators'))
     return out
